@@ -240,3 +240,87 @@ def dense_model_coq(spec):
 
 def all_rows(n):
     return [[(v >> (n - 1 - i)) & 1 for i in range(n)] for v in range(2 ** n)]
+
+
+# ------------------------------------------------------------------ conv / pool / mixed stacks
+def set_tree_gates(rng, conv, param):
+    for level in conv.tree_weights:
+        for w in level:
+            set_gates(rng, w, [rng.randrange(16) for _ in range(w.shape[0])], param)
+
+
+def random_geometry(rng, dims, small=True):
+    n = [rng.randrange(2, 5 if small else 7) for _ in range(dims)]
+    if dims == 3:
+        n = [rng.randrange(2, 4) for _ in range(3)]
+    pad = rng.choice([0, 0, 1, 2] if dims == 2 else [0, 0, 1])
+    rf_max = min(x + 2 * pad for x in n)
+    rf = rng.randrange(1, min(3, rf_max) + 1)
+    stride = rng.randrange(1, rf + 1)
+    return n, pad, rf, stride
+
+
+def make_stack(rng, dims=2, param="raw", max_in=10, n_conv=None, with_pool=None, n_dense=None, k="auto",
+               connections=None, tau=1.0):
+    """Random conv{2d,3d}/pool/flatten/dense*/groupsum stack; first spatial layer is a convolution."""
+    layers = []
+    while True:
+        n, pad, rf, stride = random_geometry(rng, dims)
+        C = rng.choice([1, 1, 2])
+        if C * int(np.prod(n)) <= max_in:
+            break
+    shape = [C] + n
+    n_conv = n_conv if n_conv is not None else rng.choice([1, 1, 2])
+    for ci in range(n_conv):
+        if ci > 0:
+            spatial = shape[1:]
+            pad = rng.choice([0, 1])
+            rf_max = min(x + 2 * pad for x in spatial)
+            rf = rng.randrange(1, min(3, rf_max) + 1)
+            stride = rng.randrange(1, rf + 1)
+        K = rng.randrange(1, 4)
+        depth = rng.randrange(1, 3)
+        conn = connections or rng.choice(["random", "random-unique"])
+        npos = rf ** dims * shape[0]
+        if conn == "random-unique" and 2 ** depth > npos * (npos - 1) // 2:
+            conn = "random"
+        if dims == 2:
+            conv = LogicConv2d(in_dim=tuple(shape[1:]), device="cpu", channels=shape[0], num_kernels=K, tree_depth=depth,
+                               receptive_field_size=rf, stride=stride, padding=pad, connections=conn,
+                               parametrization=param, weight_init="random")
+        else:
+            conv = LogicConv3d(in_dim=tuple(shape[1:]), device="cpu", channels=shape[0], num_kernels=K, tree_depth=depth,
+                               receptive_field_size=rf, stride=stride, padding=pad, connections=conn)
+        set_tree_gates(rng, conv, param if dims == 2 else "raw")
+        layers.append(conv)
+        shape = [K] + [out_len(x, pad, rf, stride) for x in shape[1:]]
+        use_pool = with_pool if with_pool is not None else (rng.random() < 0.5)
+        if use_pool and min(shape[1:]) >= 2:
+            ks = 2
+            st = rng.choice([1, 2])
+            pp = rng.choice([0, 0, 1])
+            if all(out_len(x, pp, ks, st) >= 1 for x in shape[1:]):
+                layers.append(OrPooling(ks, st, pp))
+                shape = [shape[0]] + [out_len(x, pp, ks, st) for x in shape[1:]]
+    n_dense = n_dense if n_dense is not None else rng.choice([0, 1, 2, 3])
+    feat = int(np.prod(shape))
+    layers.append(torch.nn.Flatten())
+    width = feat
+    for di in range(n_dense):
+        w = rng.randrange(2, 9)
+        l = LogicDense(width, w, device="cpu", connections="random", parametrization=param if dims == 2 else "raw")
+        set_gates(rng, l, [rng.randrange(16) for _ in range(w)], param if dims == 2 else "raw")
+        layers.append(l)
+        width = w
+    if k == "auto":
+        k = rng.choice([d for d in range(1, width + 1) if width % d == 0])
+    if k:
+        layers.append(GroupSum(k, tau, device="cpu"))
+    return torch.nn.Sequential(*layers)
+
+
+def input_rows(rng, n, exhaustive_limit, n_random=96):
+    if n <= exhaustive_limit:
+        return all_rows(n), True
+    rows = [[rng.randrange(2) for _ in range(n)] for _ in range(n_random)] + [[0] * n, [1] * n]
+    return rows, False
